@@ -27,6 +27,7 @@ class Memo:
     key: ast.expr
     miss: List[ast.stmt]            # statements executed on a miss, up to and including the store
     line: int
+    stmt: Optional[ast.stmt] = None
     key_leaves: Set[str] = field(default_factory=set)
     value_leaves: Set[str] = field(default_factory=set)
 
@@ -141,7 +142,7 @@ def find_memos(fnode) -> List[Memo]:
                     stores = [s_ for s_ in st.body if _sub_store(s_, _chain(D)) is not None]
                     if _chain(D) is not None and stores and _same(_sub_store(stores[-1])[1], K):
                         k_end = st.body.index(stores[-1])
-                        memos.append(Memo('D1', _chain(D), K, st.body[:k_end + 1], st.lineno))
+                        memos.append(Memo('D1', _chain(D), K, st.body[:k_end + 1], st.lineno, st))
                         continue
             # ---- D2: try: x = D[K] except KeyError: ...; D[K] = x
             if isinstance(st, ast.Try) and len(st.body) == 1 and isinstance(st.body[0], ast.Assign) and len(st.handlers) == 1 \
@@ -152,7 +153,7 @@ def find_memos(fnode) -> List[Memo]:
                 if hn.split('.')[-1] in ('KeyError', 'LookupError') and _chain(D) is not None:
                     stores = [s_ for s_ in h.body if _sub_store(s_, _chain(D)) is not None]
                     if stores and _same(_sub_store(stores[-1])[1], K):
-                        memos.append(Memo('D2', _chain(D), K, h.body[:h.body.index(stores[-1]) + 1], st.lineno))
+                        memos.append(Memo('D2', _chain(D), K, h.body[:h.body.index(stores[-1]) + 1], st.lineno, st))
                         continue
             # ---- D3 / A: x = D.get(K) | getattr(O, N, None); if x is None: ...; D[K] = x | setattr(O, N, x)
             if isinstance(st, ast.Assign) and len(st.targets) == 1 and isinstance(st.targets[0], ast.Name) and isinstance(st.value, ast.Call) \
@@ -170,7 +171,7 @@ def find_memos(fnode) -> List[Memo]:
                         D, K = call.func.value, call.args[0]
                         stores = [s_ for s_ in nxt.body if _sub_store(s_, _chain(D)) is not None]
                         if stores and _same(_sub_store(stores[-1])[1], K):
-                            memos.append(Memo('D3', _chain(D), K, nxt.body[:nxt.body.index(stores[-1]) + 1], st.lineno))
+                            memos.append(Memo('D3', _chain(D), K, nxt.body[:nxt.body.index(stores[-1]) + 1], st.lineno, st))
                             continue
                     if isinstance(call.func, ast.Name) and call.func.id == 'getattr' and len(call.args) == 3 \
                             and isinstance(call.args[2], ast.Constant) and call.args[2].value is None and _chain(call.args[0]) is not None:
@@ -179,7 +180,7 @@ def find_memos(fnode) -> List[Memo]:
                                 and isinstance(s_.value.func, ast.Name) and s_.value.func.id == 'setattr' and len(s_.value.args) == 3
                                 and _same(s_.value.args[0], O) and _same(s_.value.args[1], N)]
                         if sets:
-                            memos.append(Memo('A', _chain(O), N, nxt.body[:nxt.body.index(sets[-1]) + 1], st.lineno))
+                            memos.append(Memo('A', _chain(O), N, nxt.body[:nxt.body.index(sets[-1]) + 1], st.lineno, st))
                             continue
             # ---- S: if K == self.k: return self.v ... self.k, self.v = K, V
             if isinstance(st, ast.If) and not st.orelse and len(st.body) == 1 and isinstance(st.body[0], ast.Return) \
@@ -207,7 +208,7 @@ def find_memos(fnode) -> List[Memo]:
                                     v_store = (j, val_)
                     if k_store is not None and v_store is not None and _same(k_store[1], K):
                         end = max(k_store[0], v_store[0])
-                        memos.append(Memo('S', _chain(v_slot), K, rest[:end + 1], st.lineno))
+                        memos.append(Memo('S', _chain(v_slot), K, rest[:end + 1], st.lineno, st))
                         continue
     for m in memos:
         bound = _binds(m.miss)
@@ -355,7 +356,7 @@ def reset_at_acquisition(fnode, m: Memo, module) -> bool:
     names = {st.targets[0].id for st in m.miss if isinstance(st, ast.Assign) and len(st.targets) == 1 and isinstance(st.targets[0], ast.Name)}
     for blk in _all_blocks(fnode):
         for i, st in enumerate(blk):
-            if getattr(st, 'lineno', None) == m.line and isinstance(st, (ast.Assign, ast.If, ast.Try)):
+            if st is m.stmt:
                 # statements after the memo (skip the ``if x is None`` of shapes D3 / A)
                 j = i + 1
                 if m.shape in ('D3', 'A'):
